@@ -427,10 +427,23 @@ impl Transaction {
         // `of_element` returns owned strings, so the borrow of `self` ends with
         // this statement and no clone of the row is needed to release it.
         let resource = ResourceContext::of_element(self.load(id).await?);
-        self.authority
-            .authorize(permission, &resource, &self.auth)
-            .into_result()
-            .map(|_| ())
+        let decision = self.authority.authorize(permission, &resource, &self.auth);
+        // An element the caller may not read is outside its universe (§104),
+        // so a refused mutation aimed at it answers exactly what one aimed at
+        // an id that was never written does. Refusing it as unauthorized would
+        // tell the caller that the id exists — the leak `may_read` is about.
+        if !decision.is_permitted()
+            && permission != Permission::Read
+            && !self
+                .authority
+                .authorize(Permission::Read, &resource, &self.auth)
+                .is_permitted()
+        {
+            return Err(KipError::not_found_or_not_visible(format!(
+                "{id} does not exist in this Nexus, or policy hides it"
+            )));
+        }
+        decision.into_result().map(|_| ())
     }
 
     /// Authorizes one permission over an element that does not exist yet.
